@@ -1396,11 +1396,11 @@ fn main() {
         ] {
             cases.push((stream.to_string(), h.split('|').map(Op::parse).collect()));
         }
-        let nr = args.cases(220, 2_400).min(3_000);
+        let nr = args.cases(140, 2_400).min(3_000);
         for i in 0..nr {
             cases.push(("resolver".into(), gen_case(Rng::for_case(args.seed ^ 0x44, i), args.budget > 1)));
         }
-        let ni = args.cases(50, 500).min(800);
+        let ni = args.cases(30, 500).min(800);
         for i in 0..ni {
             cases.push(("interleaved".into(), gen_interleaved(Rng::for_case(args.seed ^ 0x4411, i))));
         }
